@@ -129,6 +129,8 @@ func checkC01(c *Ctx) {
 	c.Assume("net/http request parsing and the remote-address → session mapping are exercised, not modelled; connection ids are unique in the model")
 	checkC01E2E(c)
 	c01SameRemote(c)
+	c03VerifyInterleaved(c) // another connection's request in the middle of a genuine finish (shared handler state)
+	c03Revocation(c)        // a removed controller must not be verified again (stale lookups)
 
 	// ---------------- (B) in-process histories
 	n := c.Pick(150, 12000)
